@@ -220,11 +220,24 @@ def gen_plan(rng, profile: dict, seed: int) -> dict:
         return sweep_plan(int(profile["_index"]))
     cond = _gen_cond(rng)
     special = rng.random() < 0.25
+    long_run = cond["kind"] != "EpochStop" and mode == "direct" and rng.random() < 0.012
+    if long_run:
+        # a history that is still improving after more than a thousand epochs (a hidden epoch cap, a counter that wraps,
+        # a window that is only so long): strict micro-descent, then a plateau that must end the run at patience+1
+        cond["min_delta"] = 0
+        cond["verbose"] = 0
     if mode == "direct":
         n = rng.randint(1, 24)
         train = _letters(rng, n, special)
+        if long_run:
+            n_desc = rng.choice([1005, 1030, 1500, 2100])
+            n = n_desc + cond["patience"] + 1
+            train = [f"m{j}" for j in range(n_desc)] + [f"m{n_desc - 1}"] * (cond["patience"] + 1)
+            special = False
         has_val = cond["kind"] == "ValLoss" or rng.random() < 0.5
         val = _letters(rng, n, special) if has_val else None
+        if long_run and has_val:
+            val = list(train)
         rep_style = rng.choice(REPRS + ["mixed", "mixed"])
         reprs = [rng.choice(REPRS) if rep_style == "mixed" else rep_style for _ in range(n)]
         etimes = [rng.choice([0.0, 12.5, -3.0, 1e7]) for _ in range(n + 1)]
